@@ -4,6 +4,7 @@ import (
 	"bufio"
 	"io"
 	"net"
+	"sync"
 	"sync/atomic"
 	"time"
 
@@ -211,6 +212,8 @@ type zzHandler struct {
 	gate  chan struct{}
 	done  chan struct{}
 	arrived atomic.Int32
+	mu      sync.Mutex
+	parked  []Channel // natively: channels whose handler goroutine waits at the gate
 }
 
 func zzNewHandler() *zzHandler {
@@ -219,6 +222,9 @@ func zzNewHandler() *zzHandler {
 
 func (h *zzHandler) HandleChannel(ctx Context, ch Channel) status.Status {
 	if !zzverif.Symbolic() {
+		h.mu.Lock()
+		h.parked = append(h.parked, ch)
+		h.mu.Unlock()
 		h.arrived.Add(1)
 		<-h.gate
 		defer func() { h.done <- struct{}{} }()
